@@ -29,6 +29,15 @@ type FlowCase struct {
 
 type panicMarker struct{ idx int }
 
+// exitCodeOf is the status hook idx exits with: mostly 100+idx, but every third hook uses Exit(0) - "exit with status 0"
+// is an exit like any other and must not be confused with "no exit requested".
+func exitCodeOf(idx int) int {
+	if idx%3 == 0 {
+		return 0
+	}
+	return 100 + idx
+}
+
 // flowRun executes the plan against the library.
 func flowRun(c *FlowCase) (log []string, end string, strayPanic interface{}) {
 	d := c.Depth
@@ -45,7 +54,7 @@ func flowRun(c *FlowCase) (log []string, end string, strayPanic interface{}) {
 			markers[idx] = m
 			return func() { log = append(log, name); panic(m) }
 		default:
-			return func() { log = append(log, name); cli.Exit(100 + idx) }
+			return func() { log = append(log, name); cli.Exit(exitCodeOf(idx)) }
 		}
 	}
 	never := func(name string) func() { return func() { log = append(log, "NEVER:"+name) } }
@@ -102,7 +111,7 @@ func flowModel(c *FlowCase) (log []string, end string) {
 		if b == HPanics {
 			raised = fmt.Sprintf("panic(P%d)", idx)
 		} else if b == HExits {
-			raised = fmt.Sprintf("exit(%d)x1", 100+idx)
+			raised = fmt.Sprintf("exit(%d)x1", exitCodeOf(idx))
 		}
 	}
 	var completed []int
